@@ -732,7 +732,11 @@ class Interp:
         if isinstance(v, str):
             return Str.lit(v)
         if isinstance(v, bytes):
-            return Opaque('bytes:' + repr(v), (), 'bytes')
+            try:
+                # an ASCII bytes literal is the encoding of its text
+                return Opaque('encode', (Str.lit(v.decode('ascii')),), 'bytes')
+            except UnicodeDecodeError:
+                return Opaque('bytes:' + repr(v), (), 'bytes')
         return Opaque('const:' + repr(v))
 
     # ------------------------------------------------------------------ statements
@@ -885,6 +889,125 @@ class Interp:
                 continue
             for b, s2 in self.branch(c, s):
                 yield from self.exec_block(node.body if b else node.orelse, s2)
+
+    # ------------------------------------------------------------------ match statement
+    def st_Match(self, node, st):
+        for v, s in self.ev(node.subject, st):
+            if s.raised:
+                yield from self._raise_or(s, None)
+                continue
+            yield from self._match_cases(node.cases, 0, v, s)
+
+    def _match_cases(self, cases, k, v, st):
+        if k == len(cases):
+            yield Outcome('fall', None, st)
+            return
+        case = cases[k]
+        for cond, s1 in self.match_pattern(case.pattern, v, st):
+            if s1.raised:
+                yield from self._raise_or(s1, None)
+                continue
+            for b, s2 in self.branch(cond, s1):
+                if not b:
+                    yield from self._match_cases(cases, k + 1, v, s2)
+                    continue
+                if case.guard is None:
+                    yield from self.exec_block(case.body, s2)
+                    continue
+                for g, s3 in self.ev_cond(case.guard, s2):
+                    if s3.raised:
+                        yield from self._raise_or(s3, None)
+                        continue
+                    for gb, s4 in self.branch(g, s3):
+                        if gb:
+                            yield from self.exec_block(case.body, s4)
+                        else:
+                            yield from self._match_cases(cases, k + 1, v, s4)
+
+    def match_pattern(self, pat, v, st):
+        """Yield (condition under which the pattern matches v, state with the captures bound)."""
+        if isinstance(pat, ast.MatchAs):
+            if pat.pattern is None:
+                yield TRUE, (st.bind(pat.name, v) if pat.name else st)
+                return
+            for c, s in self.match_pattern(pat.pattern, v, st):
+                yield c, (s.bind(pat.name, v) if pat.name else s)
+            return
+        if isinstance(pat, ast.MatchValue):
+            for val, s in self.ev(pat.value, st):
+                if s.raised:
+                    yield None, s
+                else:
+                    yield self.compare(ast.Eq(), v, val), s
+            return
+        if isinstance(pat, ast.MatchSingleton):
+            yield self.compare(ast.Is(), v, self.constant(pat.value)), st
+            return
+        if isinstance(pat, ast.MatchOr):
+            conds, s = [], st
+            for alt in pat.patterns:
+                got = list(self.match_pattern(alt, v, s))
+                if len(got) != 1 or got[0][1].raised:
+                    raise Unsupported('or-pattern with a multi-valued alternative')
+                conds.append(got[0][0])
+            t = [fold_cond(c) for c in conds]
+            if any(x is True for x in t):
+                yield TRUE, st
+            else:
+                live = [c for c, x in zip(conds, t) if x is None]
+                yield (FALSE if not live else live[0] if len(live) == 1 else OrC(tuple(live))), st
+            return
+        if isinstance(pat, ast.MatchSequence):
+            star = [i for i, p in enumerate(pat.patterns) if isinstance(p, ast.MatchStar)]
+            if len(star) > 1:
+                raise Unsupported('sequence pattern with two stars')
+            if isinstance(v, Str) or type_of(v) in ('str', 'bytes') or v == NONE or \
+                    isinstance(v, (Sym, DictV)):
+                yield FALSE, st
+                return
+            if isinstance(v, Opaque) and v.label == 'm:partition':
+                v = Tup(tuple(self.item_of(v, Sym.const(i)) for i in range(3)))
+            items = self.literal_items(v) if not isinstance(v, ClassRef) else None
+            n_fixed = len(pat.patterns) - len(star)
+            if items is not None:
+                if (not star and len(items) != n_fixed) or (star and len(items) < n_fixed):
+                    yield FALSE, st
+                    return
+                length_cond = TRUE
+                get = lambda i: items[i]
+                tail = lambda lo, hi: Tup(tuple(items[lo:len(items) - hi if hi else None]), 'list')
+            else:
+                ln = Sym.func('LEN', _wrap(v))
+                length_cond = norm_cmp('>=' if star else '==', ln, Sym.const(n_fixed))
+                get = lambda i: self.item_of(v, Sym.const(i))
+                tail = lambda lo, hi: self.item_of(v, ('slice', Sym.const(lo),
+                                                       Sym.const(-hi) if hi else NONE, NONE))
+            k = star[0] if star else len(pat.patterns)
+            after = len(pat.patterns) - k - 1 if star else 0
+
+            def rec(i, conds, s):
+                if i == len(pat.patterns):
+                    live = [c for c in conds if fold_cond(c) is not True]
+                    if any(fold_cond(c) is False for c in live):
+                        yield FALSE, s
+                    else:
+                        yield (TRUE if not live else live[0] if len(live) == 1
+                               else AndC(tuple(live))), s
+                    return
+                p = pat.patterns[i]
+                if isinstance(p, ast.MatchStar):
+                    s2 = s.bind(p.name, tail(k, after)) if p.name else s
+                    yield from rec(i + 1, conds, s2)
+                    return
+                elem = get(i) if i < k else get(i - len(pat.patterns))
+                for c, s2 in self.match_pattern(p, elem, s):
+                    if s2.raised:
+                        yield None, s2
+                    else:
+                        yield from rec(i + 1, conds + [c], s2)
+            yield from rec(0, [length_cond], st)
+            return
+        raise Unsupported('match pattern %s at %s' % (type(pat).__name__, self.cur.loc(pat)))
 
     def st_With(self, node, st):
         """`with` blocks: the context expression is evaluated, `as` names are bound to opaque
